@@ -637,6 +637,26 @@ def _invoke(self, recv, mname, args, ins, where, depth):
 Exec.invoke = _invoke
 
 
+@harness('vUFBig32')
+def _uf_big32(ex, args, ins, where):
+    """uninterpreted function (sign, magnitude) -> uint32, used to abstract a separately verified callee"""
+    tag = tagstr(args[0])
+    x = big_get(ex, args[1], where)
+    if ex.pinned is not None:
+        raise Unsupported('vUFBig32 in pinned mode')
+    if ex.intmode:
+        f = ex.uf_cache.get(('ufbig', tag))
+        if f is None:
+            f = ex.uf_cache[('ufbig', tag)] = z3.Function('ufbig_' + tag, z3.BoolSort(), z3.IntSort(), z3.IntSort())
+        r = f(to_bool(x.neg), ex.ib(x.mag))
+        ex.add(z3.And(r >= 0, r < 2 ** 32))
+        return r
+    f = ex.uf_cache.get(('ufbig', tag))
+    if f is None:
+        f = ex.uf_cache[('ufbig', tag)] = z3.Function('ufbig_' + tag, z3.BoolSort(), z3.BitVecSort(ex.bigw), z3.BitVecSort(32))
+    return f(to_bool(x.neg), to_bv(x.mag, ex.bigw))
+
+
 @harness('vLastPreimage')
 def _lastpre(ex, args, ins, where):
     return ex.mkslice(getattr(ex, 'last_preimage', []))
@@ -925,14 +945,25 @@ def _big(ex, fname, args, ins, where):
             if m == 'Rsh' and x.neg:
                 raise Unsupported('Rsh of negative big.Int')
             return big_set(ex, z, big_norm(ex, x.neg, mg), where)
-        if is_sym(x.neg) or x.neg:
-            if m == 'Rsh':
-                # Go implements arithmetic shift for negatives; btcd only shifts magnitudes of non-negatives here
-                if ex.branch(x.neg, 'Rsh sign'):
-                    raise Unsupported('Rsh of negative big.Int')
+        if (is_sym(x.neg) or x.neg) and m == 'Rsh':
+            # Go: Rsh of a negative value is an arithmetic shift (rounds towards -inf):
+            #   -(((|x| - 1) >> s) + 1)
+            if ex.branch(x.neg, 'Rsh sign'):
+                one = BigV(False, 1)
+                xm1 = big_add(ex, BigV(False, x.mag), one, where, sub=True)
+                tmp = big_new(ex, xm1)
+                _big(ex, '(*math/big.Int).Rsh', [tmp, tmp, sh], ins, where)
+                r = big_add(ex, big_get(ex, tmp, where), one, where)
+                return big_set(ex, z, big_norm(ex, True, r.mag), where)
+            x = BigV(False, x.mag)
         if ex.intmode:
             if is_sym(sh):
-                sh = ex.concretize(sh, 'big shift count', 600)
+                k = ex.unique_value(sh)
+                if k is None:
+                    p2 = z3.ToInt(z3.IntVal(2) ** sh)
+                    mg = ex.ib(x.mag) * p2 if m == 'Lsh' else ex.ib(x.mag) / p2
+                    return big_set(ex, z, big_norm(ex, x.neg, mg), where)
+                sh = k
             mg = ex.ib(x.mag) * (2 ** sh) if m == 'Lsh' else ex.ib(x.mag) / (2 ** sh)
             return big_set(ex, z, big_norm(ex, x.neg, mg), where)
         mag = mag_bv(ex, x.mag)
@@ -1220,9 +1251,19 @@ def _sort_sort(ex, args, ins, where):
     if is_sym(n):
         n = ex.concretize(n, 'sort length', 64)
     # odd-even transposition network: n rounds of compare-exchange through Less/Swap
+    T = ex.T
+    direct = isinstance(data.v, SliceV) and T.kind(data.t) == 'slice' and T.kind(T.elem(data.t)) in ('int', 'bool')
     for rnd in range(n):
         for i in range(rnd % 2, n - 1, 2):
             less = ex.invoke(data, 'Less', [i + 1, i], ins, where, 10)
+            if direct and is_sym(less):
+                # the sorter is a named slice of scalars: Swap(i,j) exchanges elements i and j, so the
+                # compare-exchange is an if-then-else on the two elements (no path fork)
+                et = T.elem(data.t)
+                els = ex.slice_elems(data.v)
+                a, b = els[i], els[i + 1]
+                ex.set_slice_elems(data.v, i, [ex.ite_t(less, b, a, et), ex.ite_t(less, a, b, et)])
+                continue
             if ex.branch(less, 'sort compare'):
                 ex.invoke(data, 'Swap', [i, i + 1], ins, where, 10)
     return None
